@@ -336,7 +336,13 @@ impl ConsumeUnverifiedBlockProcessor {
             );
 
             db_txn.insert_tip_header(&block.header())?;
-            if new_epoch || fork.has_detached() {
+            // the tip may also cross an epoch head through blocks verified earlier
+            // (re-attached above a truncated tip): nothing detached, not a new epoch
+            // for this block, yet another epoch than the old tip's
+            if new_epoch
+                || fork.has_detached()
+                || current_tip_header.epoch().number() != epoch.number()
+            {
                 db_txn.insert_current_epoch_ext(&epoch)?;
             }
         } else {
